@@ -145,7 +145,8 @@ func (reader *SSTableReader) Scan() (SSTableIteratorI, error) {
 		}
 		err = dataReader.Open()
 		if err != nil {
-			return nil, fmt.Errorf("error in sstable '%s' while opening a scanner: %w", reader.opts.basePath, err)
+			// the file is held since the reader was created, a scanner that cannot be opened must not keep it
+			return nil, fmt.Errorf("error in sstable '%s' while opening a scanner: %w", reader.opts.basePath, errors.Join(err, dataReader.Close()))
 		}
 
 		reader.miscClosers = append(reader.miscClosers, dataReader)
